@@ -30,6 +30,7 @@ EXPLANATION += ' (R10, round 9) = C14.R11: the OpenOpts builders keep the field 
 EXPLANATION += " (R11, round 10) nothing in the crate calls close() on a channel of replica events (senders are dropped, never closed; the store actor's inbox close is the positive example)."
 EXPLANATION += ' (R12, round 11) the content-status callback the actor was spawned with is kept as given and installed in every replica it opens.'
 EXPLANATION += " (R13, round 12) = C06.R4's failing-body rows: an entry whose event went out stays applied when a later request fails (no second event on redelivery)."
+EXPLANATION += " (R14, round 12) the node's content-status callback evaluated on every answer of the blob store (variant names of the foreign BlobStatus from the type-checked program): complete = Complete, partial = Incomplete, absent = Missing, a failing lookup never Complete; the hash asked about is the one given."
 
 
 def _ins_edges(f, b, put_bi):
@@ -492,6 +493,55 @@ def r13(ctx):
     from . import C06
     C06.share_failing_body(ctx, "C12.R13")
 
+def r14(ctx):
+    """"marked ... with the providing peer and its content status": the node's content-status callback (the future built in
+    Engine::spawn - found by what it does: it is the one that converts a blob status) evaluated on every answer of the blob store:
+    it asks the blob store about the hash it was given, and a complete blob is Complete, a partial one Incomplete, an absent one
+    Missing; a failing lookup claims nothing (anything but Complete). The variant names of the foreign BlobStatus come from the
+    type-checked program (driver record `fenum`), not from the order of the match arms."""
+    from . import feval as E
+    f = ctx.facts
+    cands = [b for b in f.bodies.values() if b.path.startswith("engine::") and b.rec.get("closure_kind") == "coroutine"
+             and "ContentStatus" in b.locals[0]["ty"]
+             and any(callee_matches(t, r"engine::entry_to_content_status$") or (t["f"].get("name") == "status" and "Blobs" in (t["f"].get("full") or "")) for _, t in b.calls())]
+    if len(cands) != 1:
+        raise mir.AnchorMissing("expected one future under engine:: that asks the blob store for a blob's status, found %s" % [b.path for b in cands])
+    b = cands[0]
+    ctx.touch(b)
+    BS = [p for p in f.fenums if p.endswith("::BlobStatus")]
+    if len(BS) != 1:
+        raise mir.AnchorMissing("foreign enum BlobStatus not among the driver's fenum records: %s" % BS)
+    discr = {v["name"]: v["discr"] for v in f.fenums[BS[0]]}
+    want = {"Complete": ("Complete",), "Partial": ("Incomplete",), "NotFound": ("Missing",), "lookup-fails": ("Missing", "Incomplete")}
+    if not set(want) - {"lookup-fails"} <= set(discr):
+        raise mir.AnchorMissing("BlobStatus has variants %s" % sorted(discr))
+    for cell in ("Complete", "Partial", "NotFound", "lookup-fails"):
+        asked = []
+
+        def oracle(kind, name, payload, site, cell=cell):
+            if kind == "await":
+                if str(name).startswith("fut:status"):
+                    if cell == "lookup-fails":
+                        return E.Err(E.Tok("rpc-error"))
+                    return E.Ok(("adt", BS[0], discr[cell], {0: E.Tok("size")}))
+                return None
+            if kind == "call":
+                t, args, it = payload
+                if name == "status":
+                    asked.append([it.tokname(a).strip("&*") for a in args][1:])
+                    return E.Tok("fut:status")
+                if name == "clone" and len(args) == 1:
+                    return args[0]
+            return None
+        try:
+            out, it = E.run_coroutine(f, b.path, {}, {}, oracle)
+            got = E.describe(it.resolve(out), f)
+        except E.Unsupported as e:
+            got = "UNSUPPORTED-FORM: %s" % e
+        ok = got in want[cell] and asked == [["hash"]]
+        ctx.check(ok, "C12.R14", b.path, "content-status[%s]" % cell, "answers %s after asking the blob store about %s; spec: %s for the hash given" % (got, asked, " or ".join(want[cell])), b.sp)
+    ctx.floor("C12.R14", 4)
+
 def run(ctx):
     ctx.run_rule("C12.R1", r1)
     ctx.run_rule("C12.R2", r2)
@@ -506,3 +556,4 @@ def run(ctx):
     ctx.run_rule("C12.R11", r11)
     ctx.run_rule("C12.R12", r12)
     ctx.run_rule("C12.R13", r13)
+    ctx.run_rule("C12.R14", r14)
